@@ -527,6 +527,42 @@ def resolver_rules(facts, rep, w, rule="R09.3"):
     return n
 
 
+def shadowing_rules(facts, rep, w, rule="R09.12"):
+    """A non-directory in a layer hides what the layers below hold at that path *and beneath it*: the union is a tree, so an entry
+    whose parent the overlay shows as a file cannot exist.  The merged listing already type-tests the entries of the layers below
+    the first one (R09.4 'a shadowed non-directory entry can be skipped'); the resolver — which answers exists / metadata /
+    open_file for every path — has to look at the ancestors of a path in a layer as well: inside it, some test of the layer
+    path's parent (`parent()`, or a type test / metadata of a path other than the looked-up one, or a recursive resolution of the
+    shortened path) must be made.  A resolver that only ever asks `layer.join(path).exists()` serves `/d/x` from a lower layer
+    although an upper layer's `/d` is a file (F36)."""
+    ov = Overlay(facts, w)
+    n = 0
+    res = [b for b in ov.helpers.values() if ov._is_resolver(b)]
+    res_ids = {b.id for b in res}
+    for b in res:
+        # (a resolver's own layer-loop helper is read as part of it: deep sites)
+        looks, ancestors = 0, 0
+        for cbx, sx, trx, subx, outerx, _ax, _sfx in ov.deep_sites_x(b):
+            nm = sname(sx.path)
+            if nm == "exists" and sx.args and "anylayer" in ov.origin_class(trx.operand(sx.args[0])):
+                looks += 1
+            if nm == "parent" and sx.args and ov.origin_class(trx.operand(sx.args[0])) & {"anylayer", "upper"}:
+                ancestors += 1
+            if nm in ("is_file", "is_dir", "metadata") and sx.args and ov.origin_class(trx.operand(sx.args[0])) & {"anylayer"}:
+                ancestors += 1
+            c_ = ov.inter.local_callee(sx)
+            if c_ is not None and c_.id == b.id:
+                ancestors += 1      # recursion on a (shortened) path
+        if not looks:
+            continue                # an inner helper without lookups of its own / not the layer resolver
+        n += 1
+        rep.ob(rule, b.id, "resolver: a layer's non-directory ancestor hides the path", ancestors >= 1, "" if ancestors else
+               "the resolver asks every layer for the path itself and never looks at the path's ancestors in that layer: a file in an "
+               "upper layer does not hide the directory a lower layer has at the same path — `/d` is a file and `/d/x` exists, and a "
+               "directory re-created over the removed file lists the lower layer's old entries", b.span)
+    return n
+
+
 def listing_rules(facts, rep, w, rule="R09.4"):
     ov = Overlay(facts, w)
     n = 0
@@ -948,6 +984,10 @@ def run(facts, rep, tier, ctx):
             if o["rule"] in ("R20.1", "R20.4") and (o["fn"].startswith("<" + w10.overlay) or o["fn"].startswith(w10.overlay + "::")):
                 rep.ob(("A/" if w10.asyncw else "") + "R09.10", o["fn"], o["key"].split("|")[2], o["ok"], o["detail"], o["loc"])
         _c04o.overlay_read_delegation(facts, rep if not w10.asyncw else c10._Prefixed(rep, "A"), w10, "R09.10o")
+    # R09.12 file-over-directory shadowing (F36)
+    for w12 in (ws, World(facts, True)):
+        if w12.present():
+            shadowing_rules(facts, rep if not w12.asyncw else c10._Prefixed(rep, "A"), w12, "R09.12")
     # R09.11 the overlay's content operations do nothing optional on the way: a time setter called from append_file's copy-up ("carry the
     # time stamps over") answers NotSupported on write layers that keep the trait default and fails the append (C19 R19.4w)
     from . import c19 as _c19s
